@@ -37,7 +37,7 @@ pub const C07: Check = Check {
     assumptions: &["'terminates' is judged as the run returning with exactly as many publication point visits as reachable CA nodes"],
     shards: |_| 16,
     watchdog: |t| Duration::from_secs(t.pick(600, 3600)),
-    budget: |t| Duration::from_secs(t.pick(40, 600)),
+    budget: |t| Duration::from_secs(t.pick(40, 300)),
     run: run_c07,
     crash_is_violation: false,
     finish: None,
@@ -121,7 +121,7 @@ pub const C08: Check = Check {
     assumptions: &[],
     shards: |_| 16,
     watchdog: |t| Duration::from_secs(t.pick(600, 3600)),
-    budget: |t| Duration::from_secs(t.pick(40, 600)),
+    budget: |t| Duration::from_secs(t.pick(40, 300)),
     run: run_c08,
     crash_is_violation: false,
     finish: None,
@@ -242,7 +242,7 @@ pub const C09: Check = Check {
     assumptions: &["SLURM filter semantics per RFC 8416: a prefix filter matches VRPs whose prefix is equal to or more specific than the filter's"],
     shards: |_| 16,
     watchdog: |t| Duration::from_secs(t.pick(600, 3600)),
-    budget: |t| Duration::from_secs(t.pick(40, 600)),
+    budget: |t| Duration::from_secs(t.pick(40, 300)),
     run: run_c09,
     crash_is_violation: false,
     finish: None,
@@ -411,7 +411,7 @@ pub const C10: Check = Check {
     assumptions: &["all TAL URIs are rsync URIs in separate modules; HTTPS trust anchors are covered by C38"],
     shards: |_| 16,
     watchdog: |t| Duration::from_secs(t.pick(600, 3600)),
-    budget: |t| Duration::from_secs(t.pick(40, 600)),
+    budget: |t| Duration::from_secs(t.pick(40, 300)),
     run: run_c10,
     crash_is_violation: false,
     finish: None,
@@ -506,7 +506,7 @@ pub const C39: Check = Check {
     assumptions: &["how the deadline is used for scheduling is C34's business"],
     shards: |_| 16,
     watchdog: |t| Duration::from_secs(t.pick(600, 3600)),
-    budget: |t| Duration::from_secs(t.pick(40, 600)),
+    budget: |t| Duration::from_secs(t.pick(40, 300)),
     run: run_c39,
     crash_is_violation: false,
     finish: None,
@@ -635,7 +635,7 @@ pub const C41: Check = Check {
     assumptions: &["corrupt local RRDP archives (retry-once behaviour) are exercised by the subprocess legs"],
     shards: |_| 16,
     watchdog: |t| Duration::from_secs(t.pick(600, 3600)),
-    budget: |t| Duration::from_secs(t.pick(40, 600)),
+    budget: |t| Duration::from_secs(t.pick(40, 300)),
     run: run_c41,
     crash_is_violation: false,
     finish: None,
